@@ -107,7 +107,11 @@ def describe(o):
     if o[0] == 0:
         return "rejected"
     if o[0] == 1:
-        return "value %s" % (float(Fraction(o[1], o[2])) if len(o) > 3 else float(frac_of_obs(o)))
+        x = Fraction(o[1], o[2]) if len(o) > 3 else frac_of_obs(o)
+        try:
+            return "value %r" % float(x)
+        except OverflowError:
+            return "value of magnitude 2^%d" % (abs(x.numerator).bit_length() - x.denominator.bit_length())
     return {2: "inf", 3: "nan"}.get(o[0], str(o))
 
 
